@@ -101,6 +101,55 @@ def arg(ev, k, kind='int'):
     return t
 
 
+def alts_match(evs, end, alts):
+    """Reference given as alternatives [(condition, [(tag, [value terms])...], end)], end = 'normal' | ('panic', substring) |
+    ('exit', code).  -> formula: some alternative has this path's shape, its condition holds and all values agree."""
+    out = []
+    for cond, events, aend in alts:
+        if aend == 'normal':
+            if end[0] != 'normal':
+                continue
+        elif aend[0] == 'panic':
+            if end[0] != 'panic' or aend[1] not in (end[1] or ''):
+                continue
+        elif aend[0] == 'exit':
+            if end[0] != 'exit' or end[1] != aend[1]:
+                continue
+        if len(events) != len(evs):
+            continue
+        cs = [cond]
+        ok = True
+        for e, (tag, vals) in zip(evs, events):
+            if e['tag'] != tag or len(e['args']) != len(vals):
+                ok = False
+                break
+            for (jt, jk), v in zip(e['args'], vals):
+                if jk in ('int', 'bool'):
+                    cs.append('(= %s %s)' % (jt, v))
+                elif jk == 'str':
+                    # v: list of byte terms / ints, or a Python str
+                    want = [str(ord(ch)) for ch in v] if isinstance(v, str) else [str(x) for x in v]
+                    if len(want) != len(jt):
+                        ok = False
+                        break
+                    cs += ['(= %s %s)' % (a, b) for a, b in zip([str(x) for x in jt], want)]
+                else:
+                    ok = False
+                    break
+            if not ok:
+                break
+        if ok:
+            out.append('(and %s)' % ' '.join(c for c in cs) if cs else 'true')
+    if not out:
+        return 'false'
+    return '(or %s)' % ' '.join(out) if len(out) > 1 else out[0]
+
+
+def trace_case(tag, decl, body, alts_fn, inputs=None):
+    """Case whose reference is alts_fn(inputs_of_path) -> alternatives (see alts_match)."""
+    return Case(tag, decl, body, inputs or {}, lambda names: {'trace': lambda evs, end, inp: alts_match(evs, end, alts_fn(inp))})
+
+
 class Case:
     def __init__(self, tag, decl, body, inputs, ref, note=None):
         self.tag = tag          # unique identifier, printed by the case
@@ -111,10 +160,24 @@ class Case:
         self.note = note
 
 
+def _hoist_imports(text):
+    import re
+    imps = re.findall(r'^import "[^"]+"[ \t]*$', text, flags=re.M)
+    return sorted(set(i.strip() for i in imps)), re.sub(r'^import "[^"]+"[ \t]*$', '', text, flags=re.M)
+
+
 def program_source(cases):
-    parts = ['package main\n', NONDET_DECLS]
+    alld = []
     for c in cases:
-        parts.append(c.decl)
+        alld += list(c.decl) if isinstance(c.decl, (list, tuple)) else [c.decl]
+    imps, _ = _hoist_imports('\n'.join(alld))
+    parts = ['package main\n', '\n'.join(imps) + '\n', NONDET_DECLS]
+    seen = set()
+    for c in cases:
+        for d in (c.decl if isinstance(c.decl, (list, tuple)) else [c.decl]):
+            if d not in seen:      # shared declaration blocks are emitted once per program
+                seen.add(d)
+                parts.append(_hoist_imports(d)[1])
     parts.append('\nfunc main() {\n\tswitch NondetRange(%d, 0, %d) {\n' % (SEL_ID, max(len(cases) - 1, 0)))
     for i, c in enumerate(cases):
         parts.append('\tcase %d:\n%s\n' % (i, '\n'.join('\t\t' + ln for ln in c.body.split('\n'))))
@@ -318,7 +381,7 @@ def _verify_program(rep, z3, res, cases):
         if ok:
             rep.verified_cases.append(c.tag)
             if len(rep.samples) < 12:
-                rep.samples.append({'case': c.tag, 'go': c.decl.strip()[:200], 'paths': len(paths), 'ref': str(ref.get('value'))[:200],
+                rep.samples.append({'case': c.tag, 'go': (''.join(c.decl) if isinstance(c.decl, (list, tuple)) else c.decl).strip()[-200:] + ' | ' + c.body[:200], 'paths': len(paths), 'ref': str(ref.get('value'))[:200],
                                     'js_value': json.dumps(paths[0]['obs'][-1]['args'][-1])[:300] if paths[0]['obs'] else None})
 
 
@@ -489,17 +552,35 @@ def replay_program(case, model):
     decls = NONDET_DECLS
     # replace each Nondet function by a table look-up
     import re
-    vals = {}
-    for k, t in case.inputs.items():
-        v = model.get('in_%d' % k)
-        vals[k] = (t, v)
+    RANGES = {'int8': (-128, 127), 'int16': (-32768, 32767), 'int32': (-2**31, 2**31 - 1), 'int64': (-2**63, 2**63 - 1), 'int': (-2**31, 2**31 - 1),
+              'uint8': (0, 255), 'uint16': (0, 65535), 'uint32': (0, 2**32 - 1), 'uint64': (0, 2**64 - 1), 'uint': (0, 2**32 - 1), 'uintptr': (0, 2**32 - 1)}
+    ids = {}
+    for name, v in model.items():
+        m_ = re.fullmatch(r'in_(\d+)', name)
+        if m_:
+            ids[int(m_.group(1))] = v
 
     def body_for(gotype):
         lines = ['\tswitch id {']
-        for k, (t, v) in sorted(vals.items()):
-            if t != gotype or v is None:
+        for k, v in sorted(ids.items()):
+            declared = case.inputs.get(k)
+            if declared is not None and declared != gotype:
                 continue
-            lines.append('\tcase %d:\n\t\treturn %s' % (k, go_value(t, v)))
+            if gotype in RANGES:
+                if isinstance(v, bool) or not isinstance(v, int) or not (RANGES[gotype][0] <= v <= RANGES[gotype][1]):
+                    continue
+            elif gotype == 'bool':
+                if not isinstance(v, bool):
+                    continue
+            elif gotype in ('float32', 'float64'):
+                if not isinstance(v, dict):
+                    continue
+            else:
+                continue
+            try:
+                lines.append('\tcase %d:\n\t\treturn %s' % (k, go_value(gotype, v)))
+            except ValueError:
+                pass
         lines.append('\t}')
         return '\n'.join(lines)
 
@@ -532,7 +613,18 @@ def replay_program(case, model):
     decls = decls.replace('func NondetUint64R(id int, lo, hi uint64) uint64 { return lo }',
                           'func NondetUint64R(id int, lo, hi uint64) uint64 {\n\tswitch id {\n%s\n\t}\n\treturn lo\n}' % '\n'.join(r64_lines['Uint64R']))
     src.append(decls)
-    src.append(case.decl)
+    cdecl = ''.join(case.decl) if isinstance(case.decl, (list, tuple)) else case.decl
+    imps, cdecl = _hoist_imports(cdecl)
+    for i in imps:
+        if i not in src[1]:
+            src[1] += i + '\n'
+    if 'func VerifYield() { runtime.Gosched() }' in cdecl:
+        ys = sorted((int(k[6:]), v) for k, v in model.items() if k.startswith('yield_'))
+        n = (ys[-1][0] + 1) if ys else 0
+        tab = ', '.join('true' if dict(ys).get(i) else 'false' for i in range(n))
+        cdecl = cdecl.replace('func VerifYield() { runtime.Gosched() }',
+                              'func VerifYield() {\n\ti := yieldIdx\n\tyieldIdx++\n\tif i < len(yieldTable) && yieldTable[i] {\n\t\truntime.Gosched()\n\t}\n}\n\nvar yieldTable = []bool{%s}\nvar yieldIdx int\n' % tab)
+    src.append(cdecl)
     src.append('\nfunc main() {\n%s\n}\n' % '\n'.join('\t' + ln for ln in case.body.split('\n')))
     return ''.join(src)
 
